@@ -58,8 +58,9 @@ type refUp struct {
 	To       string
 	Type     string
 	Site     string // upstream | extra-route
-	BothOpts bool   // default block and cluster block both carry a non-empty options map
+	BothOpts bool   // the default block carries a non-empty options map and the cluster block carries an options map too (possibly `{}`)
 	OwnOpts  bool   // extra route with its own non-empty options map
+	Parent   int    // extra route: index of the parent upstream in refResult.Ups; -1 otherwise
 	Cookie   string
 
 	Lists   map[string]*refList
@@ -193,13 +194,13 @@ func (rs *resolver) applyRoute(u *refUp, blk map[string]interface{}, src string)
 		u.MustErr = "yaml-type-mismatch"
 		return
 	}
-	if len(opts) == 0 {
-		return
-	}
 	if src == "cluster" && rs.wholesale {
-		// hypothesis: everything the default block's options said is forgotten
+		// hypothesis: everything the default block's options said is forgotten (even by `options: {}`)
 		fresh := newRefUp()
 		u.Lists, u.Scalars, u.Bools, u.Maps = fresh.Lists, fresh.Scalars, fresh.Bools, fresh.Maps
+	}
+	if len(opts) == 0 {
+		return
 	}
 	for _, k := range listKeys {
 		v, stated := opts[k]
@@ -328,6 +329,12 @@ func hasOptions(blk map[string]interface{}) bool {
 	return ok && len(m) > 0
 }
 
+// optionsMapPresent: an `options:` key whose value is a mapping, possibly the empty one (`options: {}`)
+func optionsMapPresent(blk map[string]interface{}) bool {
+	_, ok := asMap(blk["options"])
+	return ok
+}
+
 // resolveDoc resolves a whole document for one cluster.
 func resolveDoc(text, cluster string, vars map[string]string, env envSpec, wholesale bool) *refResult {
 	res := &refResult{}
@@ -384,11 +391,13 @@ func resolveDoc(text, cluster string, vars map[string]string, env envSpec, whole
 				}
 			}
 		}
-		u.BothOpts = dblk != nil && cblk != nil && hasOptions(dblk) && hasOptions(cblk)
+		u.BothOpts = dblk != nil && cblk != nil && hasOptions(dblk) && optionsMapPresent(cblk)
 		if u.BothOpts {
 			res.BothOpts = true
 		}
 		ups := []*refUp{u}
+		u.Parent = -1
+		parentIdx := len(res.Ups)
 		if l, ok := u.extraRaw.([]interface{}); ok {
 			res.HasExtra = true
 			for _, e := range l {
@@ -399,6 +408,7 @@ func resolveDoc(text, cluster string, vars map[string]string, env envSpec, whole
 				}
 				x := u.clone()
 				x.Site = "extra-route"
+				x.Parent = parentIdx
 				x.extraRaw = nil
 				x.OwnOpts = hasOptions(em)
 				// provenance of inherited values stays the parent's; what the route states itself is "extra"
